@@ -47,6 +47,103 @@ fn show(a: &Amts) -> String { a.iter().map(|(k, v)| match k { None => format!("a
 
 fn quiet<R>(f: impl FnOnce() -> R + std::panic::UnwindSafe) -> Option<R> { std::panic::catch_unwind(f).ok() }
 
+/// a hand-built, correctly witnessed Byron transaction spending `n_pk` public-key outputs and `n_redeem` redeem (AVVM) outputs of
+/// `each` lovelace, with a single output of `out_amount`; returns (accepted, size as the fee rule measures it)
+fn byron_built(n_pk: usize, n_redeem: usize, each: u64, out_amount: u64) -> Option<(bool, usize)> {
+    use pallas_addresses::byron::{AddrType, AddressPayload, ByronAddress, SpendingData};
+    use pallas_codec::{minicbor::{self, bytes::ByteVec}, utils::{CborWrap, EmptyMap, MaybeIndefArray, TagWrap}};
+    use pallas_crypto::key::ed25519::SecretKey;
+    use pallas_primitives::byron::{Address, Twit, Tx, TxIn, TxOut, TxPayload, Witnesses};
+    use pallas_traverse::{MultiEraInput, MultiEraOutput, MultiEraTx, OriginalHash};
+    use pallas_validate::utils::{ByronProtParams, CertState, Environment, MultiEraProtocolParameters, UTxOs};
+    const MAGIC: u32 = 764824073;
+    let prim = |payload: AddressPayload| -> Address { let a = ByronAddress::from_decoded(payload); Address { payload: TagWrap(ByteVec::from(a.payload.0.to_vec())), crc: a.crc } };
+    let signed = |tag: u64, h: &Hash<32>| -> Vec<u8> { let mut e = minicbor::Encoder::new(Vec::new()); e.encode(tag).unwrap(); e.encode(MAGIC).unwrap(); e.encode(h).unwrap(); e.into_writer() };
+    let mut ins: Vec<(TxIn, Address, SecretKey, bool)> = Vec::new();
+    for i in 0..n_pk {
+        let key = SecretKey::from([0x11u8 + i as u8; 32]);
+        let mut ext: Vec<u8> = key.public_key().as_ref().to_vec(); ext.extend_from_slice(&[0u8; 32]);
+        let addr = prim(AddressPayload::new(AddrType::PubKey, SpendingData::PubKey(ByteVec::from(ext)), vec![].into()));
+        ins.push((TxIn::Variant0(CborWrap((Hash::<32>::from([0xa0 + i as u8; 32]), 0))), addr, key, false));
+    }
+    for i in 0..n_redeem {
+        let key = SecretKey::from([0x51u8 + i as u8; 32]);
+        let addr = prim(AddressPayload::new_redeem(key.public_key(), None));
+        ins.push((TxIn::Variant0(CborWrap((Hash::<32>::from([0xb0 + i as u8; 32]), 0))), addr, key, true));
+    }
+    let tx = Tx { inputs: MaybeIndefArray::Indef(ins.iter().map(|i| i.0.clone()).collect()), outputs: MaybeIndefArray::Indef(vec![TxOut { address: ins[0].1.clone(), amount: out_amount }]), attributes: EmptyMap };
+    let tx_buf: Vec<u8> = minicbor::to_vec(&tx).unwrap();
+    let tx_hash: Hash<32> = { let keep: pallas_codec::utils::KeepRaw<Tx> = minicbor::decode(&tx_buf).unwrap(); keep.original_hash() };
+    let wits: Witnesses = MaybeIndefArray::Def(ins.iter().map(|(_, _, key, redeem)| {
+        if *redeem { Twit::RedeemWitness(CborWrap((ByteVec::from(key.public_key().as_ref().to_vec()), ByteVec::from(key.sign(signed(2, &tx_hash)).as_ref().to_vec())))) }
+        else { let mut ext: Vec<u8> = key.public_key().as_ref().to_vec(); ext.extend_from_slice(&[0u8; 32]);
+               Twit::PkWitness(CborWrap((ByteVec::from(ext), ByteVec::from(key.sign(signed(1, &tx_hash)).as_ref().to_vec())))) }
+    }).collect());
+    let wits_buf: Vec<u8> = minicbor::to_vec(&wits).unwrap();
+    let mut payload_buf: Vec<u8> = vec![0x82]; payload_buf.extend_from_slice(&tx_buf); payload_buf.extend_from_slice(&wits_buf);
+    let mtxp: TxPayload = minicbor::decode(&payload_buf).unwrap();
+    let size = mtxp.transaction.raw_cbor().len() + mtxp.witness.raw_cbor().len();
+    let mut utxos: UTxOs = UTxOs::new();
+    for (txin, addr, _, _) in &ins {
+        utxos.insert(MultiEraInput::Byron(Box::new(std::borrow::Cow::Owned(txin.clone()))), MultiEraOutput::Byron(Box::new(std::borrow::Cow::Owned(TxOut { address: addr.clone(), amount: each }))));
+    }
+    let pparams = ByronProtParams { block_version: (1, 0, 0), start_time: 1506203091, script_version: 0, slot_duration: 20000, max_block_size: 2000000,
+        max_header_size: 2000000, max_tx_size: 4096, max_proposal_size: 700, mpc_thd: 20000000000000, heavy_del_thd: 300000000000,
+        update_vote_thd: 1000000000000, update_proposal_thd: 100000000000000, update_implicit: 10000,
+        soft_fork_rule: (900000000000000, 600000000000000, 50000000000000), summand: 155381, multiplier: 44, unlock_stake_epoch: 18446744073709551615 };
+    let env = Environment { prot_params: MultiEraProtocolParameters::Byron(pparams), prot_magic: MAGIC, block_slot: 6341, network_id: 1, acnt: None };
+    let metx = MultiEraTx::from_byron(&mtxp);
+    let mut cs = CertState::default();
+    quiet(std::panic::AssertUnwindSafe(|| pallas_validate::phase1::validate_txs(&[metx], &env, &utxos, &mut cs).is_ok())).map(|ok| (ok, size))
+}
+
+/// mainnet shelley1.tx (no certificates, withdrawals or mint) under the Mary rules, its body edited by `edit`, signed again with a key of our
+/// own that also owns the spent output (worth `spent`), so that every other phase-1 rule holds. Returns the verdict and the exact balance
+/// (spent outputs as a SET + mint - outputs - fee) per asset.
+fn mary_built(spent: &Value, edit: impl Fn(&mut pallas_primitives::alonzo::TransactionBody)) -> Option<(bool, Amts)> {
+    use pallas_codec::minicbor::{decode::{Decode, Decoder}, encode};
+    use pallas_crypto::{hash::Hasher, key::ed25519::SecretKey};
+    use pallas_primitives::alonzo::{Nonce, NonceVariant, RationalNumber, TransactionBody, Tx, VKeyWitness, WitnessSet};
+    use pallas_traverse::{Era, MultiEraTx, OriginalHash};
+    use pallas_validate::utils::{AccountState, CertState, Environment, MultiEraProtocolParameters, ShelleyProtParams, UTxOs};
+    let cbor = common::cbor_to_bytes(&std::fs::read_to_string("/repo/test_data/shelley1.tx").expect("fixture shelley1.tx"));
+    let mut mtx: Tx = common::minted_tx_from_cbor(&cbor);
+    let sk: SecretKey = SecretKey::from([7u8; 32]);
+    let pk = sk.public_key();
+    let mut owner_addr: Vec<u8> = vec![0x61];
+    owner_addr.extend_from_slice(Hasher::<224>::hash(pk.as_ref()).as_ref());
+    let mut tx_body: TransactionBody = (*mtx.transaction_body).clone();
+    edit(&mut tx_body);
+    // the exact balance
+    let mut bal = Amts::new(); bal.insert(None, 0); for k in KEYS { bal.insert(Some(k), 0); }
+    let mut seen: Vec<(Vec<u8>, u64)> = Vec::new();
+    for i in tx_body.inputs.iter() { let r = (i.transaction_id.to_vec(), i.index); if !seen.contains(&r) { seen.push(r); bal = sum(&bal, &amts_v(spent)); } }
+    if let Some(m) = &tx_body.mint { bal = sum(&bal, &amts_of(None, Some(m), |x: i64| x as i128)); }
+    for o in tx_body.outputs.iter() { let a = amts_v(&o.amount); bal = bal.iter().map(|(k, v)| (*k, v - a[k])).collect(); }
+    *bal.get_mut(&None).unwrap() -= tx_body.fee as i128;
+    let mut body_buf: Vec<u8> = Vec::new();
+    let _ = encode(tx_body, &mut body_buf);
+    mtx.transaction_body = Decode::decode(&mut Decoder::new(body_buf.as_slice()), &mut ()).unwrap();
+    let body_hash = mtx.transaction_body.original_hash();
+    let signature = sk.sign(body_hash.as_ref());
+    let mut tx_wits: WitnessSet = mtx.transaction_witness_set.unwrap().clone();
+    tx_wits.vkeywitness = Some(vec![VKeyWitness { vkey: Bytes::from(pk.as_ref().to_vec()), signature: Bytes::from(signature.as_ref().to_vec()) }]);
+    let mut wits_buf: Vec<u8> = Vec::new();
+    let _ = encode(tx_wits, &mut wits_buf);
+    mtx.transaction_witness_set = Decode::decode(&mut Decoder::new(wits_buf.as_slice()), &mut ()).unwrap();
+    let utxos: UTxOs = common::mk_utxo_for_alonzo_compatible_tx(&mtx.transaction_body, &[(hex::encode(&owner_addr), spent.clone(), None)]);
+    let one = || RationalNumber { numerator: 1, denominator: 1 };
+    let env = Environment { prot_params: MultiEraProtocolParameters::Shelley(ShelleyProtParams {
+            system_start: chrono::DateTime::parse_from_rfc3339("2017-09-23T21:44:51Z").unwrap(), epoch_length: 432000, slot_length: 1, minfee_b: 155381, minfee_a: 44,
+            max_block_body_size: 65536, max_transaction_size: 4096, max_block_header_size: 1100, key_deposit: 2000000, pool_deposit: 500000000, maximum_epoch: 18,
+            desired_number_of_stake_pools: 150, pool_pledge_influence: one(), expansion_rate: one(), treasury_growth_rate: one(), decentralization_constant: one(),
+            extra_entropy: Nonce { variant: NonceVariant::NeutralNonce, hash: None }, protocol_version: (0, 2), min_utxo_value: 1000000, min_pool_cost: 340000000 }),
+        prot_magic: 764824073, block_slot: 5281340, network_id: 1, acnt: Some(AccountState { treasury: 261_254_564_000_000, reserves: 0 }) };
+    let metx: MultiEraTx = MultiEraTx::from_alonzo_compatible(&mtx, Era::Mary);
+    let mut cs = CertState::default();
+    quiet(std::panic::AssertUnwindSafe(|| pallas_validate::phase1::validate_txs(&[metx], &env, &utxos, &mut cs).is_ok())).map(|ok| (ok, bal))
+}
+
 fn main() {
     std::panic::set_hook(Box::new(|_| {}));
     let err = pallas_validate::utils::ValidationError::Alonzo(pallas_validate::utils::AlonzoError::NegativeValue);
@@ -140,6 +237,57 @@ fn main() {
                 }
                 n += 1;
             }
+        }
+    }
+    // ---- Byron, hand-built and correctly witnessed transactions: 0..2 public-key inputs and 0..2 redeem inputs of 1 000 000 lovelace each, one
+    //      output swept around the balance point: accepted only if the inputs cover the output, plus the minimum fee unless EVERY input is a redeem one
+    for n_pk in 0..3usize { for n_redeem in 0..3usize {
+        if n_pk + n_redeem == 0 { continue; }
+        let total = 1_000_000i128 * (n_pk + n_redeem) as i128;
+        let Some((_, size)) = byron_built(n_pk, n_redeem, 1_000_000, 1) else { fail(format!("hand-built Byron transaction ({n_pk} public-key, {n_redeem} redeem inputs) panics")) };
+        let min_fee = if n_pk > 0 { 155381i128 + 44 * size as i128 } else { 0 };
+        let mut accepted_some = false;
+        for out in [1i128, total - min_fee - 1, total - min_fee, total - min_fee + 1, total - 1, total, total + 1, 2 * total] {
+            if out <= 0 { continue; }
+            match byron_built(n_pk, n_redeem, 1_000_000, out as u64) {
+                None => panics += 1,
+                Some((true, _)) => { accepted_some = true; if total < out + min_fee { report("byron check_fees (built)", format!("a Byron transaction spending {n_pk} public-key and {n_redeem} redeem outputs of 1000000 lovelace with one output of {out} is accepted: the fee due is at least {min_fee}")); } }
+                Some((false, _)) => {}
+            }
+            n += 1;
+        }
+        if !accepted_some { fail(format!("no hand-built Byron transaction with {n_pk} public-key and {n_redeem} redeem inputs is accepted: the construction is not exercising the fee rule")); }
+    } }
+    // ---- Mary, end to end: shelley1.tx re-signed, with edits of its outputs / mint / inputs; accepted only with an exactly zero balance ---------
+    {
+        let ada_in = 2332267427205u64;
+        let spent_plain = Value::Coin(ada_in);
+        let spent_tok = Value::Multiasset(ada_in, mk_ma(&[Some(1u64), None, None]));
+        type Edit = Box<dyn Fn(&mut pallas_primitives::alonzo::TransactionBody)>;
+        let lov = |v: &Value| match v { Value::Coin(c) => *c, Value::Multiasset(c, _) => *c };
+        let cases: Vec<(&str, Value, Edit, bool)> = vec![
+            ("unchanged", spent_plain.clone(), Box::new(|_b| {}), true),
+            ("first output one lovelace up", spent_plain.clone(), Box::new(move |b| { let c = lov(&b.outputs[0].amount); b.outputs[0].amount = Value::Coin(c + 1); }), false),
+            ("first output one lovelace down", spent_plain.clone(), Box::new(move |b| { let c = lov(&b.outputs[0].amount); b.outputs[0].amount = Value::Coin(c - 1); }), false),
+            ("fee one lovelace up, output one down", spent_plain.clone(), Box::new(move |b| { let c = lov(&b.outputs[0].amount); b.outputs[0].amount = Value::Coin(c - 1); b.fee += 1; }), true),
+            ("token passed through", spent_tok.clone(), Box::new(move |b| { let c = lov(&b.outputs[0].amount); b.outputs[0].amount = Value::Multiasset(c - 10_000, mk_ma(&[Some(1u64), None, None])); b.fee += 10_000; }), true),
+            ("token dropped", spent_tok.clone(), Box::new(move |b| { b.fee += 0; }), false),
+            ("second asset of the same policy appears in an output", spent_tok.clone(), Box::new(move |b| { let c = lov(&b.outputs[0].amount); b.outputs[0].amount = Value::Multiasset(c - 10_000, mk_ma(&[Some(1u64), Some(1_000_000_000_000_000_000u64), None])); b.fee += 10_000; }), false),
+            ("asset of another policy appears in an output", spent_tok.clone(), Box::new(move |b| { let c = lov(&b.outputs[0].amount); b.outputs[0].amount = Value::Multiasset(c - 10_000, mk_ma(&[Some(1u64), None, Some(5u64)])); b.fee += 10_000; }), false),
+            ("token doubled in the output", spent_tok.clone(), Box::new(move |b| { let c = lov(&b.outputs[0].amount); b.outputs[0].amount = Value::Multiasset(c - 10_000, mk_ma(&[Some(2u64), None, None])); b.fee += 10_000; }), false),
+            ("the only input listed twice, first output raised by its value", spent_plain.clone(), Box::new(move |b| { let i = b.inputs[0].clone(); b.inputs.push(i); let c = lov(&b.outputs[0].amount); b.outputs[0].amount = Value::Coin(c + ada_in - 10_000); b.fee += 10_000; }), false),
+        ];
+        for (what, spent, edit, must_accept) in cases {
+            match mary_built(&spent, edit) {
+                None => panics += 1,
+                Some((ok, bal)) => {
+                    let balanced = bal.values().all(|v| *v == 0);
+                    if ok && !balanced { report("mary check_preservation_of_value", format!("shelley1.tx under the Mary rules, {what}: accepted with the balance [{}] (spent outputs as a set + mint - outputs - fee)", show(&bal))); }
+                    if must_accept && !ok { fail(format!("shelley1.tx under the Mary rules, {what}: rejected although it balances — the harness is not exercising the rule")); }
+                    if must_accept && !balanced { fail(format!("harness error: case {what} does not balance")); }
+                }
+            }
+            n += 1;
         }
     }
     if !SEEN.lock().unwrap().is_empty() { std::process::exit(1); }
